@@ -534,8 +534,8 @@ func init() {
 		New:         func() any { return &C16Case{} },
 		Check:       func(c any) Result { return checkC16(c.(*C16Case)) },
 		FuzzTargets: []string{"FuzzSanitize"},
-		FuzzSeconds: 120,
+		FuzzSeconds: 240,
 		Quick:       6000,
-		Thorough:    40000,
+		Thorough:    400000,
 	})
 }
